@@ -46,19 +46,39 @@ Proof.
 Qed.
 Print Assumptions c14_order_independent.
 
-(* the limit of PostProcess (0 = none) and of finalizeResult is a prefix of the sorted rows, and no
-   dropped row sorts before a kept one *)
-Theorem c14_limit_is_prefix : forall k d asc less n bound l, by_ k d asc = Ok less ->
+(* the limit of PostProcess (0 = none) and of finalizeResult is a prefix of the rows it is applied to
+   ([stage tb]: the sorted rows, re-binned first when the statement has a time resolution), and without
+   re-binning no dropped row sorts before a kept one *)
+Theorem c14_limit_is_prefix : forall k d asc less tb n bound l, by_ k d asc = Ok less ->
   let s := sort_rows less l in
-  (n <> 0%N -> limit_pp n s = firstn (N.to_nat n) s) /\ limit_pp 0 s = s /\
-  limit_fin n bound s = firstn (N.to_nat (N.min n bound)) s /\
+  run_pp k d asc tb n l = Ok (limit_pp n (stage tb s)) /\
+  (l <> [] -> run_fin k d asc tb n bound l = Ok (limit_fin n bound (stage tb s))) /\
+  ((n <> 0%N -> limit_pp n (stage tb s) = firstn (N.to_nat n) (stage tb s)) /\
+   limit_pp 0 (stage tb s) = stage tb s /\
+   limit_fin n bound (stage tb s) = firstn (N.to_nat (N.min n bound)) (stage tb s)) /\
+  ((tb = None \/ tb = Some five_min_ns -> stage tb s = s) /\
+   (forall size, tb = Some size -> size <> five_min_ns -> stage tb s = rebin size s)) /\
   (forall m x y, In x (firstn m s) -> In y (skipn m s) -> less y x = false).
 Proof.
-  exact (fun k d asc less n bound l H =>
-    conj (limit_pp_firstn n _) (conj (limit_pp_zero _) (conj (limit_fin_firstn n bound _)
-      (limit_keeps_top row_key less (by_sto_on k d asc less H) l)))).
+  exact (fun k d asc less tb n bound l H =>
+    conj (run_pp_spec k d asc tb n l less H) (conj (run_fin_spec k d asc tb n bound l less H)
+      (conj (stage_limits tb n bound _) (conj (stage_cases tb _)
+        (limit_keeps_top row_key less (by_sto_on k d asc less H) l))))).
 Qed.
 Print Assumptions c14_limit_is_prefix.
+
+(* with a time resolution the limit is applied AFTER re-binning: the re-binned rows are the merged
+   (bin, labels, attributes) groups sorted by time, the limited result is their first rows, and no
+   dropped group sorts before a kept one *)
+Theorem c14_limit_after_rebin : forall size n bound (s : list row),
+  let rb := rebin size s in
+  Permutation (merge_rows (map (bin_row size) s)) rb /\
+  Sorted (ngt (cmp_time row_less true)) rb /\
+  (n <> 0%N -> limit_pp n rb = firstn (N.to_nat n) rb) /\ limit_pp 0 rb = rb /\
+  limit_fin n bound rb = firstn (N.to_nat (N.min n bound)) rb /\
+  (forall m x y, In x (firstn m rb) -> In y (skipn m rb) -> cmp_time row_less true y x = false).
+Proof. exact rebin_spec. Qed.
+Print Assumptions c14_limit_after_rebin.
 
 (* the comparator of the unfixed code (time.Time compared with !=, no host id) was not total *)
 Theorem c14_unfixed_refuted :
@@ -78,7 +98,9 @@ Example c14_example_rows : let l := [v0_zone; v0_a; v0_hostid; v0_a] in
      by_ k d asc = Ok less /\ sort_rows less l = sort_rows less (rev l)) /\
   (forall a b, In a l -> In b l -> row_key a = row_key b -> a = b) /\
   (exists less, by_ 3 1 true = Ok less /\ sort_rows less l = [v0_a; v0_a; v0_zone; v0_hostid] /\
-     limit_pp 2 (sort_rows less l) = [v0_a; v0_a] /\ limit_fin 3 2 (sort_rows less l) = [v0_a; v0_a]) /\
+     limit_pp 2 (sort_rows less l) = [v0_a; v0_a] /\ limit_fin 3 2 (sort_rows less l) = [v0_a; v0_a] /\
+     run_fin 3 1 true (Some 3600000000000%Z) 1000 1 l =
+       Ok [R 1700002800000000000 100 "hostA" "1" "eth0" (A4 167772161) (A4 167772162) 6 80 20 40 2 4]) /\
   row_key v0_a <> row_key v0_zone /\ row_key v0_a <> row_key v0_hostid.
 Proof.
   cbv zeta. split; [|split; [|split; [|split]]].
